@@ -22,7 +22,7 @@ ASSUMPTIONS = [
     "masked: NBSP written as a character reference (the implementation replaces characters of the source text only)",
     "attribute and element names are compared as written (prefix:local); namespace declarations may move",
 ]
-REQUIRED = ["documents_after_the_rest_of_the_library_was_used", "library_modules_imported", "cross_mode_cases", "strings", "strings_with_nbsp", "documents", "documents_twice", "protected_segments", "normalised_segments", "attribute_values",
+REQUIRED = ["documents_with_internal_entities", "documents_after_the_rest_of_the_library_was_used", "library_modules_imported", "cross_mode_cases", "strings", "strings_with_nbsp", "documents", "documents_twice", "protected_segments", "normalised_segments", "attribute_values",
             "xsi_attributes", "protected_nested_in_protected"]
 EXHAUSTIVE = {"quick": False, "thorough": False}
 
@@ -235,12 +235,17 @@ def run(ctx, params):
             ctx.count("documents_after_the_rest_of_the_library_was_used")
         doc = xmlgen_doc = random_doc(rng, rng.choice([1, 3, 8, 20, 50]))
         text = serialize_literal(rng, doc)
+        if i % 6 == 5:
+            ent = with_internal_entities(rng, text)
+            if ent is not None:
+                text = ent
+                ctx.count("documents_with_internal_entities")
         try:
             again = xmlgen.read(text)
         except Exception as e:
             ctx.inconclusive_because(f"generated document rejected by expat: {e}")
             continue
-        if xmlgen.canonical(again) != xmlgen.canonical(doc):
+        if xmlgen.canonical(again) != xmlgen.canonical(doc) and "<!DOCTYPE" not in text:
             ctx.inconclusive_because("generator and expat reader disagree on a generated document")
             continue
         ctx.case(judge_doc, ctx, again, text)  # attribute order as written in the text
@@ -274,6 +279,20 @@ def serialize_literal(rng, doc):
     text = xmlgen.serialize(rng, doc, declaration=rng.random() < 0.3)
     # undo character references of non-ASCII characters so that NBSP (and friends) are literal in the source text
     return re.sub(r"&#x?([0-9A-Fa-f]+);", lambda m: _unref(m), text)
+
+
+def with_internal_entities(rng, text):
+    """The same document with an internal DTD subset declaring general entities (site names, boilerplate phrases - what authors use
+    them for) and references to them in text and attribute values.  Still a well-formed document; the reference infoset is read
+    back from this very text by expat, which expands internal entities."""
+    if "x y" not in text:
+        return None
+    decl = '<!DOCTYPE doc [<!ENTITY site "North  Temperate\xa0Lakes"><!ENTITY pad " padded ">]>'
+    body = re.sub("x y", lambda m: rng.choice(["&site;", "&pad;", "x&site;y", "x y"]), text)
+    if body.startswith("<?xml"):
+        end = body.index("?>") + 2
+        return body[:end] + decl + body[end:]
+    return decl + body
 
 
 def _unref(m):
